@@ -104,9 +104,16 @@ def pick_groups(groups, nrun, rng):
     """a seeded sample that always keeps some members with shadowed binders and some with imports at the end"""
     if len(groups) <= nrun:
         return groups
+    def qualifier_clash(prog):
+        main = prog["mods"][prog["main"]]
+        quals = {st["q"] for st in main if st["k"] == "use" and st["q"]}
+        names = {st["s"] for st in main if st["k"] == "decl"} | {b["s"] for st in main if st["k"] == "decl" for b in st["a"][:st["n"]]}
+        return bool(quals & names)
+    clash = [g for g in groups if qualifier_clash(g["prog"])]
     sh = [g for g in groups if shadowing(g["prog"])]
     last = [g for g in groups if g["prog"]["mods"][g["prog"]["main"]][-1]["k"] == "use"]
-    keep = rng.sample(sh, min(len(sh), nrun // 3)) + rng.sample(last, min(len(last), nrun // 6))
+    keep = rng.sample(sh, min(len(sh), nrun // 3)) + rng.sample(last, min(len(last), nrun // 6)) + rng.sample(clash, min(len(clash), nrun // 6))
+    keep = list({id(g): g for g in keep}.values())
     ids = {id(g) for g in keep}
     rest = [g for g in groups if id(g) not in ids]
     return keep + rng.sample(rest, nrun - len(keep))
